@@ -1010,6 +1010,46 @@ func runClusterSearch(c *Ctx, r *Rng, shape [3]int) {
 		cl.dmHook = nil
 		cl.mu.Unlock()
 	}
+	// ---- a member has left the entry node's address book (last: the allocator reacts to it). Partitions
+	// that list it may have no replica left that this node can reach: the search fails, or it still
+	// consults every partition exactly once — it never answers without them.
+	if len(cl.ids) > 1 {
+		entry := cl.ids[0]
+		gone := cl.ids[len(cl.ids)-1]
+		cl.nodes[entry].node.Conn.RemoveNode(gone)
+		cl.dataset(entry, dsId).VerifDropClients(gone)
+		for rep := 0; rep < 12; rep++ {
+			tctx, tno := newTrial()
+			cl.mu.Lock()
+			cl.searchLog = nil
+			cl.searchHook = nil
+			cl.mu.Unlock()
+			res, err := cl.dataset(entry, dsId).Search(tctx, q, 5)
+			time.Sleep(2 * time.Millisecond)
+			cl.mu.Lock()
+			log := append([]searchCall{}, cl.searchLog...)
+			cl.mu.Unlock()
+			consulted := map[int]int{}
+			for _, call := range log {
+				if call.from == entry && call.trial == tno && call.err == nil {
+					for _, p := range call.partitions {
+						consulted[pidx[p]]++
+					}
+				}
+			}
+			if rep == 0 {
+				c.OpLocal("member %d removed from node %d's address book; search via node %d -> %d items err=%v, partitions consulted %v of %d", gone, entry, entry, len(res), err, consulted, P)
+			}
+			if err == nil {
+				for pi := 0; pi < P; pi++ {
+					if consulted[pi] != 1 {
+						c.Violate("C09", "C09/partition-coverage", fmt.Sprintf("after member %d left node %d's address book a dataset search through node %d returned success (%d items) although partition %d was consulted %d times", gone, entry, entry, len(res), pi, consulted[pi]), c.History())
+					}
+				}
+			}
+		}
+		c.Count("search:departed-member")
+	}
 }
 
 var slowSizeDone bool
